@@ -434,6 +434,27 @@ def sqlite_rt(case):
         with sq.SQLiteFederatedDataBuilder(path) as b:
           b.add_many(items)
       keep_old = old   # the first reader object stays alive
+    elif how == 'second_builder':
+      # a dataset already exists at the path; a SECOND builder is opened on it for other client ids: either it is refused
+      # (the first dataset stays exactly as written) or the file afterwards holds exactly what the second builder wrote -
+      # never a mixture of the two
+      first_items = [(cid + b'-first', {'x': np.ones((2, 2), _dt(case['dtype'])), 'y': np.arange(2, dtype=np.int64) + 50,
+                                        's': np.array([b'one', b'two'], dtype=object)}) for cid in ids]
+      with sq.SQLiteFederatedDataBuilder(path) as b:
+        b.add_many(first_items)
+      refused = False
+      try:
+        with sq.SQLiteFederatedDataBuilder(path) as b:
+          b.add_many(items)
+      except Exception:  # pylint: disable=broad-except
+        refused = True
+      if refused:
+        fd0 = sq.SQLiteFederatedData.new(path)
+        got0 = sorted(fd0.client_ids())
+        fd0._connection.close()
+        require(got0 == sorted(c for c, _ in first_items), 'a refused second build changed the dataset that was already at the path',
+                sorted(c for c, _ in first_items), got0)
+        return {'outcome': [case['dtype'], sizes, how, 'refused'], 'nontrivial': True}
     elif how == 'with':
       with sq.SQLiteFederatedDataBuilder(path) as b:
         b.add_many(items)
@@ -532,6 +553,15 @@ def state_rt(case):
   return {'outcome': kind, 'nontrivial': True}
 
 
+class _SaveFailure(Exception):
+  pass
+
+
+class _Unpicklable:
+  def __reduce__(self):
+    raise _SaveFailure('this object cannot be pickled')
+
+
 def checkpoint_api(case):
   """All sequences of save_checkpoint(round, state) up to a depth: load_latest_checkpoint returns what was saved
   last for the numerically largest round, and at most `keep` checkpoints remain (reference: a dict)."""
@@ -543,8 +573,11 @@ def checkpoint_api(case):
       'sB': {'w': jnp.arange(3, dtype=jnp.float32) * -2, 'h': np.float16(-0.5), 'n': 8},
       'sC': {'w': jnp.ones((2, 2), jnp.bfloat16), 'h': np.float16(0), 'n': -1},
   }
+  # sBAD: a state that cannot be saved (a leaf whose pickling raises): the save fails and must leave the directory, and what
+  # load_latest_checkpoint returns, exactly as they were
+  states['sBAD'] = {'w': jnp.zeros(2), 'h': _Unpicklable(), 'n': 0}
   rounds = [None, 1, 2, 10]
-  ops = [(r, k) for r in rounds for k in states]
+  ops = [(r, k) for r in rounds for k in states if not (k == 'sBAD' and r in (None, 1))]
   seqs = [tuple(tuple(o) for o in case['ops'])] if 'ops' in case else itertools.chain.from_iterable(
       itertools.product(ops, repeat=d) for d in range(1, depth + 1))
   evals = trans = 0
@@ -555,6 +588,24 @@ def checkpoint_api(case):
       model = {}
       for i, (r, k) in enumerate(seq):
         nc = dict(case, ops=[list(o) for o in seq[:i + 1]])
+        if k == 'sBAD':
+          try:
+            checkpoint.save_checkpoint(tmp, states[k], r, keep)
+            raise Violation('saving a state that cannot be pickled did not raise', case=nc)
+          except _SaveFailure:
+            pass
+          got = checkpoint.load_latest_checkpoint(tmp)
+          if not model:
+            require(got is None, 'a failed first save left a loadable checkpoint behind', None, repr(got)[:80], case=nc)
+          else:
+            require(got is not None and got[1] == max(model), 'after a FAILED save the newest checkpoint saved before is no longer what '
+                    'load_latest_checkpoint returns', max(model), None if got is None else got[1], case=nc)
+            same_leaf(_plain(states[model[max(model)]]), _plain(got[0]), path='state')
+          files = sorted(f for f in os.listdir(tmp) if f.startswith('checkpoint_') and len(f) == len('checkpoint_') + 8)
+          require(files == ['checkpoint_%08d' % x for x in sorted(model)], 'a failed save changed the set of complete checkpoint files',
+                  ['checkpoint_%08d' % x for x in sorted(model)], files, case=nc)
+          trans += 1
+          continue
         if r is None:
           checkpoint.save_checkpoint(tmp, states[k], keep=keep)
           rr = 0
@@ -630,7 +681,7 @@ def plan(ctx):
           # histories of the builder: several add_many calls, a reader while the builder is open, a later failing step,
           # a builder used without `with`
           [{'ids': ids, 'sizes': [(i * 2 + 1) % 4 for i in range(len(ids))], 'dtype': 'float32', 'layout': 'C', 'swapped': False,
-            'how': how} for ids in idsets for how in ('two_calls', 'read_while_open', 'later_failure', 'no_with', 'replaced_staged', 'replaced_staged_closed',
+            'how': how} for ids in idsets for how in ('two_calls', 'read_while_open', 'later_failure', 'no_with', 'second_builder', 'replaced_staged', 'replaced_staged_closed',
                                         'replaced_rebuilt', 'replaced_rebuilt_closed')])
   ctx.run('aborted_deserialize', [{'which': w, 'cut': c} for w in range(4) for c in (0.1, 0.5, 0.9)])
   ctx.run('checkpoint_api', [{'keep': k, 'depth': 3 if th else 2} for k in (1, 2, 3)])
